@@ -1,7 +1,9 @@
 (* C20 — concurrent read-only queries return the serial answers (interleaving model).
-   PARTIAL in the same sense as C07: two premises about the immutable postings table are explicit (slicing twice = slicing
-   once; a document's phrase count depends only on that document's postings, whichever of the two handles each term
-   was read through).  What the model cannot exhibit: real preemption points, nogil sections, dict atomicity.
+   Generic form: two premises about the immutable postings table are explicit (slicing twice = slicing once; a document's
+   phrase count depends only on that document's postings, whichever of the two handles each term was read through); both
+   are PROVED for every indexed corpus, giving the premise-free C20_every_interleaving / C20_schedule_eq_serial at the end.
+   PARTIAL for the runtime - what the model cannot exhibit: real preemption points, nogil sections, dict atomicity; edismax
+   and slop searches are not programs of the model.
    Model: Conc/Conc.v (queries as programs of atomic actions on the shared state of View/Purity.v). *)
 From Coq Require Import ZArith.
 From SA Require Import Base.Prelude Index.Index View.View View.Purity View.Purity_Proofs View.Purity_Indexed Index.Index_Spec Conc.Conc Conc.Conc_Proofs Conc.Conc_Indexed Conc.Conc_Indexed2.
